@@ -37,13 +37,14 @@ type Session struct {
 	marshal         func(interface{}) ([]byte, error)
 	lastActs        int
 	lastHsync       string
+	byContent       map[string]string // decoded node -> bytes it was written as
 	lastCwalk       string
 	ctx             context.Context
 }
 
 func NewSession(cfg Cfg) *Session {
 	s := &Session{Cfg: cfg, Store: NewRecStore("rec0"), Trees: map[int]*mast.Mast{}, Roots: map[int]*mast.Root{},
-		Oracle: map[int]map[uint64]uint64{}, ROracle: map[int]map[uint64]uint64{}, Cursors: map[int]*mast.Cursor{}, canonSeen: map[string]string{}, curs: map[int]*curState{}, bases: map[int]*baseInfo{}, written: map[string]string{},
+		Oracle: map[int]map[uint64]uint64{}, ROracle: map[int]map[uint64]uint64{}, Cursors: map[int]*mast.Cursor{}, canonSeen: map[string]string{}, curs: map[int]*curState{}, bases: map[int]*baseInfo{}, written: map[string]string{}, byContent: map[string]string{},
 		ctx: context.Background()}
 	switch cfg.Cache {
 	case "big":
@@ -398,6 +399,14 @@ func (s *Session) Exec(line string) (obs string, viol string) {
 				viol = "name " + c.Name + " written with two different byte strings"
 			}
 			s.written[c.Name] = string(c.Bytes)
+			// C08: the bytes are a function of the node's entries and child names alone
+			if dn, derr := s.Cfg.DecodeNode(c.Bytes); derr == nil {
+				key := fmt.Sprintf("%v|%v|%q", dn.Keys, dn.Vals, dn.Links)
+				if prev, ok := s.byContent[key]; ok && prev != string(c.Bytes) && viol == "" {
+					viol = fmt.Sprintf("a node with keys %v, values %v and child names %q was written once as %x and once as %x", dn.Keys, dn.Vals, dn.Links, prev, c.Bytes)
+				}
+				s.byContent[key] = string(c.Bytes)
+			}
 		}
 		if viol == "" && s.Cfg.Cache == "none" && !s.sharedStore {
 			viol = s.checkIncremental(int(num(1)), r, calls)
@@ -446,7 +455,10 @@ func (s *Session) Exec(line string) (obs string, viol string) {
 		if r == nil {
 			return "bad-slot", ""
 		}
-		m, err := r.LoadMast(s.ctx, s.remoteConfig())
+		// every loaded tree gets a handle of its own onto the session's store
+		lc := s.remoteConfig()
+		lc.StoreImmutablePartsWith = &storeHandle{s.Store}
+		m, err := r.LoadMast(s.ctx, lc)
 		if err != nil {
 			return errClass(err), "loading a root returned by MakeRoot failed: " + err.Error()
 		}
